@@ -55,6 +55,7 @@ func (d *doublyConnectedEdgeList) addPolygon(poly Polygon, operand operand, inte
 			e.fwd.srcEdge[operand] = true
 			e.rev.srcEdge[operand] = true
 			e.fwd.srcFace[operand] = true
+			e.fwd.srcFaceCount[operand]++
 
 			// TODO: is this treatment of boundary correct? It may not follow
 			// the odd-even rule if the node occurs multiple times due to
